@@ -1282,7 +1282,7 @@ class _PrfFns(dict):
         return f
 
 
-def find_witness(a, b, trials=12, seed=0, budget=6000000):
+def find_witness(a, b, trials=12, seed=0, budget=25000000):
     """Search an assignment of the inputs on which the two graphs evaluate differently.
     Returns dict(inputs, index, got, expected) or None.  (Graphs only; never repository code.)"""
     if len(a) != len(b):
@@ -1294,16 +1294,69 @@ def find_witness(a, b, trials=12, seed=0, budget=6000000):
     rnd = random.Random(seed)
     cases = []
     cases.append({n: rnd.getrandbits(w) for n, w in widths.items()})
-    cases.append({n: 0 for n in widths})
     cases.append({n: (1 << w) - 1 for n, w in widths.items()})
+    cases.append({n: 0 for n in widths})
+    # inputs of equal width made equal, then perturbed in one bit / by the same delta in every 32-bit word
+    # (distinguishes equality predicates, which random values never satisfy)
+    def base_equal():
+        per_w = {}
+        return {n: per_w.setdefault(w, rnd.getrandbits(w)) for n, w in sorted(widths.items())}
+    cases.append(base_equal())
+    for _ in range(3):
+        env = base_equal()
+        n = rnd.choice(sorted(widths))
+        env[n] ^= 1 << rnd.randrange(widths[n])
+        cases.append(env)
+    eqcases = []
+    for _ in range(40):
+        env = base_equal()
+        n = rnd.choice(sorted(widths))
+        delta = rnd.getrandbits(32) | 1
+        w = widths[n]
+        pat = 0
+        for sh in range(0, w, 32):
+            if rnd.random() < 0.5:
+                pat |= delta << sh
+        env[n] ^= pat & ((1 << w) - 1)
+        eqcases.append(env)
+    cases.extend(eqcases[:3])
     for _ in range(trials - 1):
         cases.append({n: rnd.getrandbits(w) for n, w in widths.items()})
     for _ in range(4):
         # sparse / boundary style values
         cases.append({n: rnd.choice([0, 1, (1 << w) - 1, 1 << (w - 1), rnd.getrandbits(w)]) for n, w in widths.items()})
+    # boundary values: a difference that sits in a carry or comparison shows only when an input word is at
+    # the value where that carry flips (2^w - c for a constant c of the graphs); try those for the words
+    # the first differing bit depends on
+    try:
+        di = next(i for i, (x, y) in enumerate(zip(a, b)) if x != y)
+        dsup = support((a[di] ^ b[di],))
+    except StopIteration:
+        dsup = set()
+    consts = set()
+    for (w0, _, c0) in _sum_index:
+        if c0:
+            consts.add(min(c0, (1 << w0) - c0))
+    consts = sorted(consts)[:6] or [1]
+    words = set()
+    for n, i in dsup:
+        for ww in (32, 64):
+            if widths.get(n, 0) >= ww:
+                words.add((n, (i // ww) * ww, ww))
+    targeted = []
+    for n, lo, ww in sorted(words):
+        for c0 in consts:
+            for v in ((-c0) % (1 << ww), (-c0 - 1) % (1 << ww), c0 % (1 << ww), (c0 - 1) % (1 << ww)):
+                env = {m: rnd.getrandbits(w) for m, w in widths.items()}
+                env[n] = (env[n] & ~(((1 << ww) - 1) << lo)) | (v << lo)
+                env[n] &= (1 << widths[n]) - 1
+                targeted.append(env)
+    rnd.shuffle(targeted)
+    cases[4:4] = targeted[:48]
+    cases.extend(eqcases[3:])
     spent = 0
     for nth, env in enumerate(cases):
-        if nth >= 2 and spent > budget:
+        if nth >= 3 and spent > budget:
             break                   # huge graphs: a few assignments only (the verdict stays "undecided")
         try:
             ev = Evaluator(env, _PrfFns())
